@@ -242,6 +242,8 @@ class Function:
                         els.append(e)
                 b["el"] = els
                 self.blocks[b["id"]] = b
+                if "term" in b and isinstance(b["term"], int) and b.get("tk") in ("GotoStmt", "BreakStmt", "ContinueStmt", "ReturnStmt"):
+                    self.pos.setdefault(b["term"], (b["id"], len(els)))
                 for i, e in enumerate(els):
                     if isinstance(e, int):
                         self.pos.setdefault(e, (b["id"], i))
